@@ -114,6 +114,48 @@ where F1: Fn(Vec<RespValue>) -> Result<Command, String>, F2: Fn(Vec<RespValueZer
     std::mem::forget((r1, r2));
 }
 
+fn seq(a: &redis_sim::redis::SDS, b: &redis_sim::redis::SDS) -> bool { crate::scenarios::util::sds_eq(a, b) }
+fn vs1(a: &Vec<String>, b: &Vec<String>) -> bool { a.len() == b.len() && (a.len() < 1 || a[0] == b[0]) && (a.len() < 2 || a[1] == b[1]) && a.len() <= 2 }
+fn vsds(a: &Vec<redis_sim::redis::SDS>, b: &Vec<redis_sim::redis::SDS>) -> bool { a.len() == b.len() && (a.len() < 1 || seq(&a[0], &b[0])) && (a.len() < 2 || seq(&a[1], &b[1])) && a.len() <= 2 }
+/// structural equality of two parsed commands, written out per variant: the derived `==` on the 200-variant enum makes
+/// symbolic execution compare under every variant (the discriminant of a value returned through `Result` is no longer
+/// a constant for CBMC). Variants not listed compare as different under Kani (a harness that needs one fails on the
+/// unchanged tree and gets its variant added); natively the derived `==` is used, so a replay confirms the real thing.
+pub fn veq(a: &Command, b: &Command) -> bool {
+    if vs::NATIVE { return a == b; }
+    use Command::*;
+    match (a, b) {
+        (Get(x), Get(y)) | (StrLen(x), StrLen(y)) | (Incr(x), Incr(y)) | (Decr(x), Decr(y)) | (TypeOf(x), TypeOf(y)) | (Ttl(x), Ttl(y)) | (Pttl(x), Pttl(y))
+        | (Persist(x), Persist(y)) | (LPop(x), LPop(y)) | (RPop(x), RPop(y)) | (LLen(x), LLen(y)) | (SMembers(x), SMembers(y)) | (SCard(x), SCard(y))
+        | (HGetAll(x), HGetAll(y)) | (HLen(x), HLen(y)) | (ZCard(x), ZCard(y)) | (Keys(x), Keys(y)) | (GetDel(x), GetDel(y)) | (HKeys(x), HKeys(y)) | (HVals(x), HVals(y)) => x == y,
+        (Set { key: k1, value: v1, ex: e1, px: p1, exat: a1, pxat: q1, nx: n1, xx: x1, get: g1, keepttl: t1 },
+         Set { key: k2, value: v2, ex: e2, px: p2, exat: a2, pxat: q2, nx: n2, xx: x2, get: g2, keepttl: t2 }) =>
+            k1 == k2 && seq(v1, v2) && e1 == e2 && p1 == p2 && a1 == a2 && q1 == q2 && n1 == n2 && x1 == x2 && g1 == g2 && t1 == t2,
+        (Append(k1, v1), Append(k2, v2)) | (GetSet(k1, v1), GetSet(k2, v2)) | (SetNx(k1, v1), SetNx(k2, v2)) | (SIsMember(k1, v1), SIsMember(k2, v2))
+        | (HGet(k1, v1), HGet(k2, v2)) | (HExists(k1, v1), HExists(k2, v2)) | (ZScore(k1, v1), ZScore(k2, v2)) | (ZRank(k1, v1), ZRank(k2, v2)) => k1 == k2 && seq(v1, v2),
+        (IncrBy(k1, n1), IncrBy(k2, n2)) | (DecrBy(k1, n1), DecrBy(k2, n2)) | (ExpireAt(k1, n1), ExpireAt(k2, n2)) | (PExpireAt(k1, n1), PExpireAt(k2, n2)) => k1 == k2 && n1 == n2,
+        (Del(x), Del(y)) | (Exists(x), Exists(y)) | (MGet(x), MGet(y)) | (Watch(x), Watch(y)) => vs1(x, y),
+        (Expire { key: k1, seconds: s1, nx: n1, xx: x1, gt: g1, lt: l1 }, Expire { key: k2, seconds: s2, nx: n2, xx: x2, gt: g2, lt: l2 }) => k1 == k2 && s1 == s2 && n1 == n2 && x1 == x2 && g1 == g2 && l1 == l2,
+        (PExpire { key: k1, milliseconds: s1, nx: n1, xx: x1, gt: g1, lt: l1 }, PExpire { key: k2, milliseconds: s2, nx: n2, xx: x2, gt: g2, lt: l2 }) => k1 == k2 && s1 == s2 && n1 == n2 && x1 == x2 && g1 == g2 && l1 == l2,
+        (LPush(k1, v1), LPush(k2, v2)) | (RPush(k1, v1), RPush(k2, v2)) | (SAdd(k1, v1), SAdd(k2, v2)) | (SRem(k1, v1), SRem(k2, v2)) | (HDel(k1, v1), HDel(k2, v2)) | (ZRem(k1, v1), ZRem(k2, v2)) => k1 == k2 && vsds(v1, v2),
+        (LIndex(k1, i1), LIndex(k2, i2)) => k1 == k2 && i1 == i2,
+        (LRange(k1, a1, b1), LRange(k2, a2, b2)) | (LTrim(k1, a1, b1), LTrim(k2, a2, b2)) | (GetRange(k1, a1, b1), GetRange(k2, a2, b2)) => k1 == k2 && a1 == a2 && b1 == b2,
+        (LSet(k1, i1, v1), LSet(k2, i2, v2)) => k1 == k2 && i1 == i2 && seq(v1, v2),
+        (SetRange(k1, i1, v1), SetRange(k2, i2, v2)) => k1 == k2 && i1 == i2 && seq(v1, v2),
+        (RPopLPush(a1, b1), RPopLPush(a2, b2)) => a1 == a2 && b1 == b2,
+        (LMove { source: a1, dest: b1, wherefrom: c1, whereto: d1 }, LMove { source: a2, dest: b2, wherefrom: c2, whereto: d2 }) => a1 == a2 && b1 == b2 && c1 == c2 && d1 == d2,
+        (HSet(k1, p1), HSet(k2, p2)) => k1 == k2 && p1.len() == p2.len() && p1.len() == 1 && seq(&p1[0].0, &p2[0].0) && seq(&p1[0].1, &p2[0].1),
+        (HIncrBy(k1, f1, n1), HIncrBy(k2, f2, n2)) => k1 == k2 && seq(f1, f2) && n1 == n2,
+        (ZRange(k1, a1, b1, w1), ZRange(k2, a2, b2, w2)) | (ZRevRange(k1, a1, b1, w1), ZRevRange(k2, a2, b2, w2)) => k1 == k2 && a1 == a2 && b1 == b2 && w1 == w2,
+        (SPop(k1, c1), SPop(k2, c2)) => k1 == k2 && c1 == c2,
+        (Select(x), Select(y)) => x == y,
+        (Echo(x), Echo(y)) => seq(x, y),
+        (Ping(x), Ping(y)) => match (x, y) { (Some(p), Some(q)) => seq(p, q), (None, None) => true, _ => false },
+        (Multi, Multi) | (Exec, Exec) | (Discard, Discard) | (Unwatch, Unwatch) | (FlushDb, FlushDb) | (FlushAll, FlushAll) | (DbSize, DbSize) | (Info, Info) | (Time, Time) => true,
+        _ => false,
+    }
+}
+
 /// one arm, one concrete argument shape (literals / symbolic bytes per argument as in `diff`)
 pub fn arm_spec<F1, F2>(name: &'static [u8], args: &[A], f: (F1, F2))
 where F1: Fn(Vec<RespValue>) -> Result<Command, String>, F2: Fn(Vec<RespValueZeroCopy>) -> Result<Command, String> {
@@ -137,7 +179,7 @@ where F1: Fn(Vec<RespValue>) -> Result<Command, String>, F2: Fn(Vec<RespValueZer
     let r1 = (f.0)(e1);
     let r2 = (f.1)(e2);
     match (&r1, &r2) {
-        (Ok(a), Ok(b)) => { vcheck!(a == b, "parsers:same frame parsed into different commands"); }
+        (Ok(a), Ok(b)) => { vcheck!(veq(a, b), "parsers:same frame parsed into different commands"); }
         (Err(a), Err(b)) => { vcheck!(a.as_bytes() == b.as_bytes(), "parsers:same frame rejected with different error texts"); }
         (Ok(_), Err(_)) => { vcheck!(false, "parsers:frame accepted by the simulation parser only"); }
         (Err(_), Ok(_)) => { vcheck!(false, "parsers:frame accepted by the production parser only"); }
